@@ -209,6 +209,20 @@ func (x *runner) enc(arg string) string {
 				x.extra = append(x.extra, "dec "+flag+" "+d.SX())
 			}
 		}
+		// the other validation mode: a document written without validation may violate the length bounds that a
+		// validating decoder enforces (and the other way round nothing changes)
+		x.extra = append(x.extra, "dec "+b01(flag != "1")+" "+canonDoc.SX())
+		// other spellings of decimal / hex texts (values and member names), numbers at the edge of the integer kinds
+		for _, d := range []*J{canonDoc.respelled(x.r.Rng), canonDoc.extremeNumber(x.r.Rng)} {
+			if d == nil {
+				continue
+			}
+			x.r.Count("derived:respelled-or-extreme")
+			if ft := floatTable(d); ft != "" {
+				x.extra = append(x.extra, "ftab"+ft)
+			}
+			x.extra = append(x.extra, "dec "+flag+" "+d.SX())
+		}
 	}
 	sreason := top.inexpressible()
 	if sreason == "" && vreason == "" && nontrivial(v) {
